@@ -67,10 +67,11 @@ def run(ctx):
     cases += [gen.rand_unicode(ctx.rng) for _ in range(nrand)]
     # structured patterns: well-formed tokens with non-ASCII content, repeated references, function calls with arbitrary argument text
     inner = ["é", "Grüß Gott", "Łódź", "𝄞", "a b", "x,y", "(", ")", "()", "\"q\"", "1", "", "później – potem", "a\tb"]
+    seps = [", ", ", ", ",", ",\n", "\n, ", ",\r\n  "]      # a line break between the parentheses: `.` does not match it, the token is malformed
     for _ in range(1500 if ctx.quick else 20000):
         r = ctx.rng.random()
         if r < 0.4:
-            tok = "%" + ctx.rng.choice(["env", "envInt", "todo", "nofn", "Env", "env2"]) + "(" + ", ".join(json.dumps(ctx.rng.choice(inner), ensure_ascii=False) for _ in range(ctx.rng.randint(0, 2))) + ")%"
+            tok = "%" + ctx.rng.choice(["env", "envInt", "todo", "nofn", "Env", "env2"]) + "(" + ctx.rng.choice(["", "", "", "\n", " \n "]) + ctx.rng.choice(seps).join(json.dumps(ctx.rng.choice(inner), ensure_ascii=False) for _ in range(ctx.rng.randint(0, 2))) + ctx.rng.choice(["", "", "", "\n"]) + ")%"
         elif r < 0.6:
             tok = "%" + ctx.rng.choice(["p", "my.param", "a-b_c", "é", "p.", "1p", "p p"]) + "%"
         else:
